@@ -171,6 +171,8 @@ func FromHistory(c *runner.Ctx, r *runner.Rand, h *genfrag.History) []Struct {
 			m.Data = m.Data[:0]
 			fill(b2, false)
 		default: // monolithic data replaced through SetData, then parts
+			// (a lazy size together with data is not built: SetLazyDataSize documents
+			// "Don't put any data in m.Data in this mode")
 			fill(a, false)
 			_ = m.Size()
 			m.SetData(nil)
